@@ -11,3 +11,4 @@ import CC.Thm.C20
 #print axioms CC.Thm.C20.no_simd_only_selects
 #print axioms CC.Thm.C20.std_nostd_dispatch_only_selects
 #print axioms CC.Thm.C20.selected_arm_sound
+#print axioms CC.Thm.C20.cfg_atoms_as_modelled
